@@ -1,6 +1,7 @@
 package props
 
 import (
+	"sort"
 	"encoding/json"
 	"os"
 	"testing"
@@ -31,4 +32,51 @@ func TestDbgReplay(t *testing.T) {
 		}
 		t.Log("   cluster:", w.Cluster.Paths())
 	}
+}
+
+// TestDbgC09 runs one C09 case (DBG09=<replay.json>) and prints every event in global order.
+func TestDbgC09(t *testing.T) {
+	p := os.Getenv("DBG09")
+	if p == "" {
+		t.Skip()
+	}
+	d, err := loadReplayDoc(p)
+	if err != nil {
+		t.Fatal(err)
+	}
+	var c c09Case
+	if err := json.Unmarshal(d.Case, &c); err != nil {
+		t.Fatal(err)
+	}
+	taken, nt, out := c09Run(t, c)
+	t.Logf("taken=%v nontrivial=%v outcome=%s", taken, nt, out)
+	// once more, printing every event in global order
+	w := world.New(c.Backend)
+	w.Run(&world.Op{Kind: "install", DisableHooks: true, Chart: c09Chart(0, 0)})
+	if c.Start == "deployed-long" {
+		w.Run(&world.Op{Kind: "upgrade", DisableHooks: true, Chart: c09Chart(0, 1)})
+		w.Run(&world.Op{Kind: "upgrade", DisableHooks: true, Chart: c09Chart(0, 2)})
+	}
+	rs, _, err := w.RunConcurrent(c.Ops, func(step int, waiting []int) int {
+		if step < len(c.Schedule) {
+			for k, id := range waiting {
+				if id == c.Schedule[step] {
+					return k
+				}
+			}
+			return c.Schedule[step] % len(waiting)
+		}
+		return 0
+	}, 20e9)
+	t.Log(err)
+	var evs []world.Event
+	for i, r := range rs {
+		t.Logf("op%d err=%v", i, r.Err)
+		evs = append(evs, r.Events...)
+	}
+	sort.Slice(evs, func(i, j int) bool { return evs[i].Seq < evs[j].Seq })
+	for _, e := range evs {
+		t.Log("   ", e)
+	}
+	t.Log(world.HistString(w.History()))
 }
